@@ -195,6 +195,9 @@ impl Prop for C07 {
 
         let mut bfm = BellmanFordMoore::new(&g, c.s);
         let got: Option<Vec<isize>> = bfm.distances().map(<[isize]>::to_vec);
+        // asking the same instance again must give the same answer
+        let again: Option<Vec<isize>> = bfm.distances().map(<[isize]>::to_vec);
+        ensure!(again == got, "a second distances() call on the same instance returned {again:?}, the first {got:?}");
         if reference.negative_circuit {
             ensure!(
                 got.is_none(),
